@@ -200,6 +200,20 @@ package at
 //@   ensures locked-image-is-the-recorded-one: result1 == nil ==> called("beforeImage#1") && callres("beforeImage#1", 1) == nil && called("AppendBeofreImage#1") && callarg("AppendBeofreImage#1", 1) == callres("beforeImage#1", 0)
 //@   may_panic
 
+// The row scanner of the image queries (phase one). A DECIMAL is an exact number: read into a float64 it
+// is recorded - and at rollback restored - as the nearest double (12345678901234567.89 comes back as
+// 12345678901234568), and the validation query, which reads it as text, never finds it equal. i stands
+// for an arbitrary column index.
+//@ func (*baseExecutor).GetScanSlice
+//@   prop C01
+//@   requires tableMeta != nil
+//@   let i := some(int, "i")
+//@   loop 1 invariant index: rangeindex1 >= -1 && rangeindex1 < len(columnNames) && len(scanSlice) == rangeindex1 + 1
+//@   loop 1 invariant decimal-is-kept-exactly-so-far: 0 <= i && i < len(scanSlice) && i < len(columnNames) && upper(tableMeta.Columns[columnNames[i]].DatabaseTypeString) == "DECIMAL" ==> !isT(scanSlice[i], *float64) && !isT(scanSlice[i], *sql.NullFloat64)
+//@   ensures one-destination-per-column: len(result) == len(columnNames)
+//@   ensures decimal-is-kept-exactly: 0 <= i && i < len(result) && upper(tableMeta.Columns[columnNames[i]].DatabaseTypeString) == "DECIMAL" ==> !isT(result[i], *float64) && !isT(result[i], *sql.NullFloat64)
+//@   nopanic
+
 // C01: what the images record. A NULL column is recorded as nil - never as the zero value of its type,
 // which rollback would then write back in place of the NULL - and a present value as itself.
 //@ func getSqlNullValue
